@@ -1023,6 +1023,8 @@ func stripFrameworkTickMetadata(meta arrow.Metadata) arrow.Metadata {
 // transport keys stripped). If a byte/batch cap makes one turn emit several
 // batches, the later ticks in that turn legitimately see empty metadata — the
 // client has no opportunity to update mid-turn.
+//
+//lint:ignore U1000 uncapped entry point kept for the leakcheck-tagged tests; dispatch calls runProduceLoopCapped.
 func (h *HttpServer) runProduceLoop(ctx context.Context, writer *ipc.Writer, schema *arrow.Schema,
 	state ProducerState, info *methodInfo, stats *CallStatistics, auth *AuthContext, transportMeta map[string]string, cookies map[string]string, sink *stickySink, firstTickMeta arrow.Metadata) (bool, error) {
 	return h.runProduceLoopCapped(ctx, writer, nil, schema, state, info, stats, auth, transportMeta, cookies, sink, firstTickMeta)
